@@ -146,6 +146,20 @@ def run_random_case(F, data: bytes, rng, ctx, case) -> None:
             return
     if obj.checksum != reg ^ 0xFFFF:
         ctx.violation("C03:checksum", f"checksum of {data.hex()[:80]} = {obj.checksum!r}, model {reg ^ 0xFFFF:#06x}", case)
+    # interleaved reads: is_good and checksum queried after every octet of message + trailer (also before the first one)
+    msg_t = data + fcs16.trailer(data)
+    o2 = F()
+    reg2 = 0xFFFF
+    for i in range(len(msg_t) + 1):
+        g, c = o2.is_good, o2.checksum
+        want_g = reg2 == fcs16.register(b"\x00\x00")
+        if bool(g) != want_g or c != reg2 ^ 0xFFFF:
+            ctx.violation("C03:interleaved-reads", f"after {i} octets of {msg_t.hex()[:60]} (queried after every octet): is_good={g!r} (model {want_g}), checksum={c!r} (model {reg2 ^ 0xFFFF:#06x})", case)
+            break
+        if i < len(msg_t):
+            o2.update(msg_t[i])
+            reg2 = fcs16.step(reg2, msg_t[i])
+    ctx.count("interleaved_read_sequences")
     # windows
     for _ in range(3):
         start = rng.randint(0, len(data))
